@@ -68,6 +68,9 @@ def run(ck):
         if p.name not in base:
           continue
         b0, b1 = M.norm_bag(base[p.name], p), M.norm_bag(res[p.name], p)
+        if res[p.name]['kind'] == 'too_big':
+          ck.features['capacity-skipped'] += 1
+          continue
         if base[p.name]['kind'] != 'ok':
           continue   # the original itself is rejected / fails: not C07's business (C01/C19 decide it)
         if b1 is None:
